@@ -233,25 +233,6 @@ def run(ctx):
     ]
     rng = random.Random(ctx.seed * 7919 + 11)
 
-    if ctx.replay:
-        # re-run exactly the recorded history (and the fresh-interpreter references of its calls)
-        rec = json.load(open(ctx.replay))["case"]
-        al = alphabet("thorough")
-        by_key = {(a["f"], a["p"], a["sig"]): a for a in al}
-        by_c = {a["c"]: a for a in al}
-        if "history" not in rec:
-            fresh_digests(ctx, [rec["call"]], {}, repeat=2)
-            return
-        h = [tuple(c.split("|")) for c in rec["history"]]
-        cache = {}
-        fresh_digests(ctx, [by_key[x] for x in sorted(set(h))], cache)
-        results = run_histories(ctx, [h], by_key, int(rec.get("threads", 1)))
-        cases = [to_case(r, cache, by_c) for r in results]
-        v = ctx.judge("History_Trace", cases, name="replay", stateful=True)
-        handle(ctx, results, cases, v, "replay")
-        ctx.note("replayed %s: verdict %s %s" % (ctx.replay, v.get(0), ctx.judge_extra.get(0)))
-        return
-
     import os
     focus = set(filter(None, os.environ.get("VERIF_FOCUS", "").split(",")))
     if focus:
@@ -382,6 +363,25 @@ def replay_part(ctx, rng, focus):
         vv = ctx.judge("History_Trace", [bad, bad2], name="selftest", stateful=True, count_traces=False)
         if vv.get(0) != "result_differs_from_fresh_interpreter" or vv.get(1) != "defaults_mutated":
             raise core.MachineryError("History_Trace accepted a corrupted trace: %s" % vv)
+
+
+def replay(ctx, rec):
+    """re-run exactly the recorded history (and the fresh-interpreter references of its calls)"""
+    rec = rec["case"]
+    al = alphabet("thorough")
+    by_key = {(a["f"], a["p"], a["sig"]): a for a in al}
+    by_c = {a["c"]: a for a in al}
+    if "history" not in rec:                       # two fresh interpreters disagreed on one call
+        fresh_digests(ctx, [rec["call"]], {}, repeat=2)
+        return
+    h = [tuple(c.split("|")) for c in rec["history"]]
+    threads = int(rec.get("threads", 1))
+    cache, results = run_all(ctx, [by_key[x] for x in sorted(set(h))], 1, [h], [threads], by_key)
+    cases = [to_case(r, cache, by_c) for r in results]
+    v = ctx.judge("History_Trace", cases, name="replay", stateful=True)
+    handle(ctx, results, cases, v, "replay")
+    ctx.sample({"replayed": rec.get("at"), "verdict": v.get(0), "where": ctx.judge_extra.get(0)})
+    ctx.note("replayed: verdict %s %s" % (v.get(0), ctx.judge_extra.get(0)))
 
 
 META = {
